@@ -180,11 +180,12 @@ impl SlotState {
                 self.count_notar_stake(slot, &block_hash, voter_stake)
             }
             Vote::NotarFallback(nf_vote) => {
-                let outputs = self.count_notar_fallback_stake(nf_vote.block_hash(), voter_stake);
+                // store the vote first: a certificate created while counting aggregates the
+                // stored votes and must include the vote that crossed the threshold
                 let block_hash = nf_vote.block_hash().clone();
-                let res = self.votes.notar_fallback[v].insert(block_hash, nf_vote);
+                let res = self.votes.notar_fallback[v].insert(block_hash.clone(), nf_vote);
                 assert!(res.is_none());
-                outputs
+                self.count_notar_fallback_stake(&block_hash, voter_stake)
             }
             Vote::Skip(skip_vote) => {
                 self.votes.skip[v] = Some(skip_vote);
